@@ -120,5 +120,6 @@ pub fn history_from_bytes(data: &[u8]) -> Option<History> {
             ..Default::default()
         },
         excluded: 0,
+        quiet_prefix: 0,
     })
 }
